@@ -33,6 +33,7 @@ type Processor[K comparable, T Queueable[K]] struct {
 	processorRunningCh chan struct{}
 	stopCh             chan struct{}
 	resetCh            chan struct{}
+	closedCh           chan struct{}
 	stopped            atomic.Bool
 }
 
@@ -45,6 +46,7 @@ func NewProcessor[K comparable, T Queueable[K]](executeFn func(r T)) *Processor[
 		processorRunningCh: make(chan struct{}, 1),
 		stopCh:             make(chan struct{}),
 		resetCh:            make(chan struct{}, 1),
+		closedCh:           make(chan struct{}),
 		clock:              kclock.RealClock{},
 	}
 }
@@ -106,9 +108,13 @@ func (p *Processor[K, T]) Close() error {
 		// Blocks until processor loop ends
 		p.processorRunningCh <- struct{}{}
 		verifhook.Point("queue.close.tokenTaken")
+		close(p.closedCh)
 		return nil
 	}
 
+	// Another call to Close won the race: wait until it has stopped the processing loop for good,
+	// so that no item can be executed after this call returns either.
+	<-p.closedCh
 	return nil
 }
 
